@@ -232,7 +232,7 @@ func (c *FCtx) pendingWrites(st *State, keys []string)                          
 func (c *FCtx) globalFacts(st *State, v *types.Var, val Value) {
 	// global invariants declared in contract files: "protect"-style facts are added by name
 	for _, a := range c.W.Specs.Axioms {
-		if strings.HasPrefix(a.Name, "global."+v.Name()) && !c.inGlobalFact {
+		if a.Name == "global."+v.Name() && !c.inGlobalFact {
 			c.inGlobalFact = true
 			se := &SpecEnv{C: c, Pkg: c.W.ByName[a.PkgName], B: &Bindings{vals: map[string]TV{v.Name(): {val, v.Type()}}}, Cur: st, Old: st}
 			st.assume(se.evalBool(a.Expr))
